@@ -25,6 +25,7 @@ func VerifC08_Copy() {
 	now := vrtCmdInstant(h, "now")
 	vrtCmdAssumeClock(h, now)
 	vrt.SetClock(uint32(now))
+	aid := vrtArchiveChoice(na)
 	simg, _ := vrtCmdInvImage(h, "s", now)
 	sp := vrt.TempFile("src/a.wsp", simg)
 	destAbsent := vrt.Choose("destAbsent", 2) == 1
@@ -32,10 +33,9 @@ func VerifC08_Copy() {
 	if destAbsent {
 		dp = vrt.NoFile("dst/a.wsp")
 	} else {
-		dimg, _ := vrtCmdInvImage(h, "d", now)
+		dimg := vrtCmdSecondImage(h, "d", now, aid == ArchiveIDAll && na > 1)
 		dp = vrt.TempFile("dst/a.wsp", dimg)
 	}
-	aid := vrtArchiveChoice(na)
 	from := vrtCmdInstant(h, "from")
 	vrt.Assume(from <= now)
 	copyNaN := vrt.Choose("copyNaN", 2) == 1
